@@ -1,7 +1,245 @@
-import Gossamer.Model.C23
-import Gossamer.Lib.C23Spec
+/-
+Property C23: authority set changes are applied as Substrate applies them.
+
+Model      : Gossamer/Model/C23.lean  (dot/state/grandpa.go, grandpa_changes.go, dot/digest/block_import.go,
+             dot/core/service.go handleBlock, the finalisation handler of dot/digest/digest.go)
+Spec       : Gossamer/Lib/C23Spec.lean (Substrate `AuthoritySet` rules over the block tree)
+Proofs     : Gossamer/Lib/C23{Tree,Keys,Inv,Forced,Sched,Fin,SimBase,Sim,Refine,Next}.lean
+
+`run t St.init ops` is the model after the history `ops` (`imp b` / `fin b`) on the case tree `t`.
+-/
+import Gossamer.Lib.C23Next
 namespace Gossamer.C23
 
-theorem C23_startNext_setId (s : St) (tag n : Nat) : (startNext s tag n).setId = s.setId + 1 := rfl
+/-! ## C23_refines — the model equals the specification on every history in scope
+
+Scope (`Scoped`): every `imp` names a block that is not in the block tree at that moment (each block is imported
+once), headers carry at most one scheduled and one forced change, and no import is refused by the code with
+`errAlreadyHasForcedChange` / `errPendingScheduledChanges` (after such a refusal gossamer keeps the block, Substrate
+does not: known finding `failed-import-keeps-block`, see `C23_refused_import_counterexample`).
+Every prefix of a history in scope is in scope, so the statement covers the state after every operation. -/
+
+/-- After every history in scope: the same result class for every operation, the same current set id, the
+    same authorities and change block for every set, the same answer of `GetSetIDByBlockNumber` for every
+    block number, and the same block tree (known blocks and finalised block). -/
+theorem C23_refines (t : Tree) (wf : t.WF) (ops : List Op) (h : Scoped t St.init ops) :
+    trace t St.init ops = Spec.trace t Spec.init ops ∧
+    (run t St.init ops).setId = (Spec.run t Spec.init ops).setId ∧
+    (∀ i, i ≤ (run t St.init ops).setId →
+      lookup (run t St.init ops).auths i = (Spec.run t Spec.init ops).auths[i]? ∧
+      lookup (run t St.init ops).change i = (Spec.run t Spec.init ops).starts[i]?) ∧
+    (∀ n, setIdAt (run t St.init ops) n = some ((Spec.run t Spec.init ops).setIdAt n)) ∧
+    (run t St.init ops).live = (Spec.run t Spec.init ops).known ∧
+    (run t St.init ops).root = (Spec.run t Spec.init ops).fin := by
+  have hsim := sim_run wf ops St.init Spec.init (sim_init t) (inv_init wf) h
+  have hinv := inv_run wf ops St.init (inv_init wf) (scoped_fresh ops _ h)
+  refine ⟨hsim.1.symm, hsim.2.setId.symm, fun i hi => ⟨hsim.2.auths i hi, hsim.2.starts i hi⟩,
+    fun n => sim_setIdAt hsim.2 hinv.keys n, hsim.2.live.symm, hsim.2.root.symm⟩
+
+/-- The pending changes agree as well: the forced changes as a multiset, the scheduled-change tree up to
+    roots whose announcing block the block state no longer knows (they can never be selected again). -/
+theorem C23_refines_pending (t : Tree) (wf : t.WF) (ops : List Op) (h : Scoped t St.init ops) :
+    (run t St.init ops).forced.Perm (Spec.run t Spec.init ops).forced ∧
+    (Spec.run t Spec.init ops).std =
+      (run t St.init ops).roots.filter (fun r => (run t St.init ops).live.contains r.ann.blk) := by
+  have hsim := sim_run wf ops St.init Spec.init (sim_init t) (inv_init wf) h
+  exact ⟨hsim.2.forced, hsim.2.std⟩
+
+/-- `NextGrandpaAuthorityChange`, asked for any block of the block tree after any history in scope, is the lowest
+    effective number (not above the block's number) of a pending forced change or scheduled-change root
+    announced on the block's chain, as the specification defines it (0 = `ErrNoNextAuthorityChange`). -/
+theorem C23_refines_next (t : Tree) (wf : t.WF) (ops : List Op) (h : Scoped t St.init ops) (x : Nat)
+    (hx : inBt t (run t St.init ops) x = true) :
+    nextChange t (run t St.init ops) x = some ((Spec.run t Spec.init ops).nextChange t x) := by
+  have h3 := sim_run_next wf ops St.init Spec.init (sim_init t) (inv_init wf) (nInv_init t) h
+  exact nextChange_eq wf h3.1 h3.2.1 h3.2.2 x hx
+
+/-- a history in scope that enacts a scheduled change on one fork after abandoning the other, and a forced
+    change (the hypotheses of `C23_refines` are satisfiable on a non-trivial history) -/
+def exTree : Tree :=
+  { parents := [0, 0, 2, 3, 4],
+    anns := [⟨1, false, 0, 1, 0⟩, ⟨2, false, 1, 2, 0⟩, ⟨4, true, 1, 3, 3⟩] }
+
+def exOps : List Op := [.imp 1, .imp 2, .imp 3, .fin 3, .imp 4, .imp 5]
+
+example : exTree.WF := by decide
+example : Scoped exTree St.init exOps := by decide
+example : (run exTree St.init exOps).setId = 2 := by decide
+example : trace exTree St.init exOps = [.ok, .ok, .ok, .ok, .ok, .ok] := by decide
+example : nextChange exTree (run exTree St.init (exOps.take 3)) 3 = some 2 := by decide
+
+/-- why refused imports are outside `C23_refines`: the import of block 3 is refused (its forced change depends
+    on the pending scheduled change of block 1), Substrate drops the block, the code keeps it in the tree -/
+theorem C23_refused_import_counterexample :
+    let t : Tree := { parents := [0, 1, 2], anns := [⟨1, false, 0, 1, 0⟩, ⟨2, true, 1, 2, 1⟩] }
+    let ops : List Op := [.imp 1, .imp 2, .imp 3]
+    trace t St.init ops = [.ok, .ok, .eForced .pending] ∧
+    Spec.trace t Spec.init ops = [.ok, .ok, .eForced .pending] ∧
+    (run t St.init ops).live = [0, 1, 2, 3] ∧ (Spec.run t Spec.init ops).known = [0, 1, 2] := by
+  decide
+
+/-! ## C23_setid_increments -/
+
+/-- One operation leaves the set id alone or increases it by exactly one; in the latter case exactly the
+    entries of the new set are written, and the entries of all earlier sets are never rewritten. -/
+theorem C23_setid_increments (t : Tree) (s : St) (op : Op) (hk : KeysOK s) :
+    ((step t s op).1.setId = s.setId ∨ (step t s op).1.setId = s.setId + 1) ∧
+    (∀ i, i ≤ s.setId → lookup (step t s op).1.auths i = lookup s.auths i ∧
+      lookup (step t s op).1.change i = lookup s.change i) ∧
+    KeysOK (step t s op).1 := by
+  refine ⟨?_, fun i hi => step_keeps t s op hk i hi, keysOK_step t s op hk⟩
+  cases step_core t s op with
+  | same h1 _ _ => exact Or.inl h1
+  | next _ _ h1 _ _ => exact Or.inr h1
+
+/-- After every history whatsoever the tables hold authorities and a change block for exactly the set ids
+    `0 .. current`. -/
+theorem C23_sets_contiguous (t : Tree) (ops : List Op) : KeysOK (run t St.init ops) :=
+  keysOK_run t ops St.init keysOK_init
+
+/-- `GetSetIDByBlockNumber`, after every history whatsoever: the latest set whose change block lies below
+    the block number (set 0 if none). -/
+theorem C23_setIdAt (t : Tree) (ops : List Op) (n : Nat) :
+    setIdAt (run t St.init ops) n =
+      some (topBelow (fun i => (lookup (run t St.init ops).change i).getD 0) n (run t St.init ops).setId) :=
+  setIdAt_eq _ (C23_sets_contiguous t ops) n
+
+/-! ## C23_one_forced_per_fork -/
+
+/-- After every history in which each block is imported once: the pending forced changes are announced by
+    nodes of the current block tree and no two of them by blocks related by ancestry. -/
+theorem C23_one_forced_per_fork (t : Tree) (wf : t.WF) (ops : List Op) (h : Fresh t St.init ops) :
+    (∀ c ∈ (run t St.init ops).forced, inBt t (run t St.init ops) c.blk = true) ∧
+    (run t St.init ops).forced.Pairwise (fun a c => anc t a.blk c.blk = false ∧ anc t c.blk a.blk = false) :=
+  fInv_run wf ops St.init (liveInv_init wf) (fInv_init t) h
+
+/-- `handleBlock` tolerates the re-import of a block that is in the tree; then the claim fails: block 1's forced
+    change is enacted at block 2, block 3 announces a forced change, block 1 is imported again and announces
+    its own once more: two forced changes are pending on one fork (and `NextGrandpaAuthorityChange` reports the
+    enacted one again) -/
+theorem C23_reimport_counterexample :
+    let t : Tree := { parents := [0, 1, 2], anns := [⟨1, true, 1, 1, 0⟩, ⟨3, true, 3, 2, 0⟩] }
+    let s := run t St.init [.imp 1, .imp 2, .imp 3, .imp 1]
+    s.setId = 1 ∧ s.forced.map (·.blk) = [1, 3] ∧ anc t 1 3 = true ∧
+    ¬ Fresh t St.init [.imp 1, .imp 2, .imp 3, .imp 1] := by
+  decide
+
+/-! ## C23_abandoned_discarded -/
+
+/-- After every history in which each block is imported once, every block that announces a tracked pending
+    change is either known to the block state, or on a fork abandoned by finalisation — and then no block of
+    the block tree is related to it, so no lookup selects it (`isDesc` answers `false` both ways).
+    Forced changes are always of the first kind (`C23_one_forced_per_fork`). -/
+theorem C23_abandoned_discarded (t : Tree) (wf : t.WF) (ops : List Op) (h : Fresh t St.init ops) :
+    ∀ x ∈ blocksF (run t St.init ops).roots,
+      x ∈ (run t St.init ops).live ∨
+      (∀ y, inBt t (run t St.init ops) y = true →
+        isDesc t (run t St.init ops) x y = some false ∧ isDesc t (run t St.init ops) y x = some false) := by
+  intro x hx
+  have hl := liveInv_run wf ops St.init (liveInv_init wf)
+  have hr := rInv_run wf ops St.init (liveInv_init wf) (rInv_init t) h
+  by_cases hxl : x ∈ (run t St.init ops).live
+  · exact Or.inl hxl
+  · right
+    intro y hy
+    have hy' := (inBt_iff t _ y).1 hy
+    have hne : x ≠ y := fun e => hxl (e ▸ hy'.1)
+    exact ⟨isDesc_dead (Or.inl hxl) hne, isDesc_dead (Or.inr hxl) (Ne.symm hne)⟩
+
+/-- In the specification a finalisation keeps only pending changes announced on the finalised chain or below
+    the finalised block. -/
+theorem C23_spec_abandoned_discarded (t : Tree) (p : Spec) (b : Nat) (h : (p.finalise t b).2 ≠ .eFin) :
+    (∀ f ∈ (p.finalise t b).1.forced, anc t b f.blk = true) ∧
+    (∀ r ∈ (p.finalise t b).1.std, cmp t b r.ann.blk = true) := by
+  unfold Spec.finalise at h ⊢
+  by_cases hc : (!(p.known.contains b && anc t p.fin b)) = true
+  · rw [if_pos hc] at h; exact absurd rfl h
+  · rw [if_neg hc]
+    dsimp only
+    split
+    · split
+      · constructor
+        · intro f hf; simp only [List.mem_filter] at hf; exact hf.2
+        · intro r hr; simp only [List.mem_filter] at hr; exact hr.2
+      · constructor
+        · intro f hf; simp only [Spec.enact, List.mem_filter] at hf; exact hf.2
+        · intro r hr; simp only [Spec.enact, List.mem_filter] at hr; exact hr.2
+    · constructor
+      · intro f hf; simp only [List.mem_filter] at hf; exact hf.2
+      · intro r hr; simp only [List.mem_filter] at hr; exact hr.2
+
+/-! ## C23_scheduled_applies_on_own_fork / forced changes at their effective block (what the specification
+    demands; `C23_refines` carries it to the model) -/
+
+/-- A finalisation of `b` enacts at most one change: a root of the standard-change tree announced on the chain
+    of `b` whose effective number is not above the number of `b`; the outgoing set ends at `b`'s number. -/
+theorem C23_scheduled_applies_on_own_fork (t : Tree) (p : Spec) (b : Nat) :
+    ((p.finalise t b).1.setId = p.setId ∧ (p.finalise t b).1.auths = p.auths ∧ (p.finalise t b).1.starts = p.starts) ∨
+    (∃ r ∈ p.std, anc t r.ann.blk b = true ∧ eff t r.ann ≤ num t b ∧
+      (p.finalise t b).1.setId = p.setId + 1 ∧ (p.finalise t b).1.auths = p.auths ++ [r.ann.tag] ∧
+      (p.finalise t b).1.starts = p.starts ++ [num t b]) := by
+  unfold Spec.finalise
+  split
+  · exact Or.inl ⟨rfl, rfl, rfl⟩
+  · dsimp only
+    split
+    · rename_i r hr
+      split
+      · exact Or.inl ⟨rfl, rfl, rfl⟩
+      · right
+        have hP := List.find?_some hr
+        simp only [Bool.and_eq_true, decide_eq_true_eq] at hP
+        exact ⟨r, List.mem_of_find?_eq_some hr, hP.2, hP.1, rfl, rfl, rfl⟩
+    · exact Or.inl ⟨rfl, rfl, rfl⟩
+
+/-- An import of `b` enacts at most one change: a pending (or just announced) forced change announced on the
+    chain of `b` whose effective number is the number of `b`; the outgoing set ends at the change's best
+    finalized number and every pending change is dropped. -/
+theorem C23_forced_applies_at_effective_block (t : Tree) (p : Spec) (b : Nat) :
+    ((p.importBlock t b).1.setId = p.setId ∧ (p.importBlock t b).1.auths = p.auths ∧
+      (p.importBlock t b).1.starts = p.starts) ∨
+    (∃ f, (f ∈ p.forced ∨ signalled t b = some f) ∧ anc t f.blk b = true ∧ eff t f = num t b ∧
+      (p.importBlock t b).1.setId = p.setId + 1 ∧ (p.importBlock t b).1.auths = p.auths ++ [f.tag] ∧
+      (p.importBlock t b).1.starts = p.starts ++ [f.best] ∧
+      (p.importBlock t b).1.forced = [] ∧ (p.importBlock t b).1.std = []) := by
+  unfold Spec.importBlock
+  split
+  · exact Or.inl ⟨rfl, rfl, rfl⟩
+  · cases hadd : p.addChange t b with
+    | error e => exact Or.inl ⟨rfl, rfl, rfl⟩
+    | ok p1 =>
+      -- what `addChange` may have done
+      have hp1 : p1.setId = p.setId ∧ p1.auths = p.auths ∧ p1.starts = p.starts ∧
+          (∀ f ∈ p1.forced, f ∈ p.forced ∨ signalled t b = some f) := by
+        unfold Spec.addChange at hadd
+        split at hadd
+        · simp only [Except.ok.injEq] at hadd; subst hadd
+          exact ⟨rfl, rfl, rfl, fun f hf => Or.inl hf⟩
+        · rename_i c hc
+          split at hadd
+          · split at hadd
+            · exact absurd hadd (by simp)
+            · simp only [Except.ok.injEq] at hadd; subst hadd
+              refine ⟨rfl, rfl, rfl, fun f hf => ?_⟩
+              simp only [List.mem_append, List.mem_singleton] at hf
+              rcases hf with hf | hf
+              · exact Or.inl hf
+              · exact Or.inr (hf ▸ hc)
+          · simp only [Except.ok.injEq] at hadd; subst hadd
+            exact ⟨rfl, rfl, rfl, fun f hf => Or.inl hf⟩
+      simp only
+      unfold Spec.enactForced
+      split
+      · exact Or.inl ⟨hp1.1, hp1.2.1, hp1.2.2.1⟩
+      · rename_i f hf
+        split
+        · exact Or.inl ⟨rfl, rfl, rfl⟩
+        · right
+          have hP := List.find?_some hf
+          simp only [Bool.and_eq_true, decide_eq_true_eq] at hP
+          refine ⟨f, hp1.2.2.2 f (List.mem_of_find?_eq_some hf), hP.1, hP.2, ?_, ?_, ?_, rfl, rfl⟩
+          · simp [Spec.enact, hp1.1]
+          · simp [Spec.enact, hp1.2.1]
+          · simp [Spec.enact, hp1.2.2.1]
 
 end Gossamer.C23
